@@ -130,6 +130,20 @@ package res
 //@ func isValidPath(p string) (res bool)
 //@   ensures sem: res == (len(p) == 0 || (pvalid(p) && forall(k, 0, len(p), !wildAt(p, k))))
 //@
+//@ # ---- tag replacement: both entry points make exactly one pass of replace over the pattern (simultaneous substitution:
+//@ # a replacement value is never scanned for tags again). nrepl counts the passes. replace itself is used through its contract.
+//@ ghostvar nrepl int
+//@ func (p Pattern) replace(replacer func(tag string) (string, bool)) (res Pattern)
+//@   nobody
+//@   modifies ghost.nrepl, alloc
+//@   ensures nrepl == old(nrepl) + 1
+//@ func (p Pattern) ReplaceTags(m map[string]string) (res Pattern)
+//@   modifies ghost.nrepl, alloc
+//@   ensures empty: imp(len(m) == 0, same(res, p) && nrepl == old(nrepl))
+//@   ensures onepass: imp(len(m) != 0, nrepl == old(nrepl) + 1)
+//@ func (p Pattern) ReplaceTag(tag string, value string) (res Pattern)
+//@   modifies ghost.nrepl, alloc
+//@   ensures onepass: nrepl == old(nrepl) + 1
 //@ func mergePattern(a string, b string) (res string)
 //@   ensures ea: imp(len(a) == 0, res == b)
 //@   ensures eb: imp(len(b) == 0 && len(a) > 0, res == a)
